@@ -5,7 +5,10 @@ mod c04;
 mod common;
 mod families;
 mod input_checks;
+mod pgn_checks;
 mod selftest;
+mod table_check;
+mod uci_checks;
 
 use board_checks::*;
 use common::*;
@@ -45,6 +48,9 @@ fn main() {
         "C12" => input_checks::run_c12(tier),
         "C13" => input_checks::run_c13(tier),
         "C14" => input_checks::run_c14(tier),
+        "C15" => uci_checks::run(tier),
+        "C17" => pgn_checks::run(tier),
+        "C18" => table_check::run(tier),
         _ => {
             eprintln!("unknown check {}", id);
             2
@@ -73,6 +79,9 @@ fn replay(id: &str, path: &str) -> i32 {
         "C04" => return c04::replay(case),
         "C13" => return input_checks::replay_c13(case),
         "C14" => return input_checks::replay_c14(case),
+        "C15" => return uci_checks::replay(case),
+        "C17" => return pgn_checks::replay(case),
+        "C18" => return table_check::replay_case(case),
         "C12" => {
             input_checks::replay_c12(case);
         }
